@@ -1,6 +1,6 @@
 """C05 -- queries carry the last completed session and serial; foreign sessions refused."""
 from .fsm_common import fsm_job
-from .sync_common import sync_job
+from .sync_common import *
 
 INFO = {"outside": "wip", "assumptions": []}
 MANIFEST = {"text": "wip", "note": "wip"}
@@ -8,5 +8,9 @@ MANIFEST = {"text": "wip", "note": "wip"}
 
 def jobs(tier):
     B = 6 if tier == "quick" else 10
-    return [fsm_job("fsm_queries_b%d" % B, "ASSERT_C05", B),
-            fsm_job("stop_resets_session", "ASSERT_C05", 6, entry="harness_stop")]
+    J = [fsm_job("fsm_queries_b%d" % B, "ASSERT_C05", B, timeout=1800),
+         fsm_job("stop_resets_session", "ASSERT_C05", 6, entry="harness_stop")]
+    fam = fam_complete(tier) if tier == "thorough" else [[CR, EOD], [SN, CR, EOD], [CR, V4, EOD], [CR, KEY, EOD], [CR, V4, V6, EOD]]
+    for sk in fam + fam_after_cr() + fam_openers():
+        J.append(sync_job("ASSERT_C05", sk, extra=["NO_TABLE_FAIL"] if len(sk) >= 6 else None, timeout=2400 if len(sk) >= 6 else 900))
+    return J
